@@ -1,7 +1,7 @@
 use crate::{
     cfg::Cfg,
     parser::{Label, ParserNode},
-    passes::{DiagnosticLocation, DiagnosticManager, LintError, LintPass},
+    passes::{DiagnosticManager, LintError, LintPass},
 };
 use uuid::Uuid;
 
@@ -31,11 +31,10 @@ impl LintPass for OverlappingFunctionCheck {
                         token: l.raw_token().clone(),
                     })
                     .collect::<Vec<_>>();
-                // Name the first of the entry's labels in the source, not
-                // whichever the label set happens to yield first
-                let label = labels
-                    .iter()
-                    .min_by_key(|l| l.name.range().start().raw_index());
+                // Name the alphabetically first of the entry's labels, not
+                // whichever the label set happens to yield first (positions
+                // cannot be compared: the labels may sit in different files)
+                let label = labels.iter().min_by(|a, b| a.name.cmp(&b.name));
 
                 if let Some(l) = label {
                     errors.push(LintError::NodeInManyFunctions(
